@@ -334,6 +334,10 @@ func (g *Up4Gen) appQer(id uint32) pfcpx.QER {
 	q := pfcpx.QER{ID: id, QFI: g.QFIs[g.R.Intn(len(g.QFIs))], ULMBR: uint64(1000 + g.R.Intn(1000000)), DLMBR: uint64(1000 + g.R.Intn(1000000)),
 		ULGBR: uint64(g.R.Intn(1000)), DLGBR: uint64(g.R.Intn(1000))}
 
+	if g.R.Intn(3) == 0 { // the same rate in both directions (one meter cell can serve both; an update may need a second one)
+		q.DLMBR = q.ULMBR
+	}
+
 	if g.R.Intn(5) == 0 {
 		q.ULGate = 1
 	}
